@@ -9,7 +9,7 @@
    [read_obs ps r a] = what accessor [a] of node [r] returns in state [ps]. *)
 Require Import IP.Base.Bytes IP.DM.Value IP.Heap.GoMem IP.Heap.BasicHeap.
 Require Import IP.Heap.Script.
-Require Import IP.Proofs.HeapLogic IP.Proofs.HeapOps IP.Proofs.HeapPrims IP.Proofs.HeapC11 IP.Proofs.HeapScript.
+Require Import IP.Proofs.HeapMem IP.Proofs.HeapLogic IP.Proofs.HeapOps IP.Proofs.HeapPrims IP.Proofs.HeapC11 IP.Proofs.HeapScript IP.Proofs.HeapReaders.
 From Coq Require Import List ZArith Bool.
 Import ListNotations.
 Local Open Scope nat_scope.
@@ -85,27 +85,66 @@ Print Assumptions C11_script_stable.
 (* ---- readers handed out by AsLargeBytes (reader-level operations: Read(n), Seek, several alive) ---- *)
 
 (* Full statement: a handed-out reader is moved only by the reads and seeks made on it; whatever
-   other readers, accessors and subset matches do in between, its cell is untouched. *)
-Definition touches (x : addr) (p : prim) : bool :=
-  match p with
-  | PReaderRead (HReader y) _ | PReaderSeek (HReader y) _ _ => addr_eqb x y
-  | _ => false
-  end.
-Definition C11_reader_independent (cf : cfg) : Prop :=
+   other readers (of the same node or of others), accessors, subset matches and builders do in
+   between, its cell is untouched.  [touches x p] (coq/Proofs/HeapReaders.v) = "p is a Read or Seek
+   on the reader in cell x". *)
+Definition C11_readers_full (cf : cfg) : Prop :=
   forall hs1 hs2, legalh cf pinit (hs1 ++ hs2) = true ->
   forall x, known_b (kn (runh cf pinit hs1)) (HReader x) = true ->
   forallb (fun p => negb (touches x p)) hs2 = true ->
   hget (hp (runh cf pinit (hs1 ++ hs2))) x = hget (hp (runh cf pinit hs1)) x.
 
-(* Proved part (any configuration; on the repaired tree every reader of a stream-backed node is a
-   cursor): along a Legal history a cursor stays a cursor over the same source, the content that
-   source denotes does not change, and a read yields exactly content[offset:] of the cursor's OWN
-   offset field.  MISSING for the full statement: that no call other than a Read/Seek on the cursor
-   itself stores to the cursor's cell (its offset).  In the model only rd_read / rd_seekw on the
-   operand write a cursor cell, but the invariant treats every reader cell as "frozen up to its
-   position" and so does not record which reader a call may move; closing it needs reader cells as a
-   tag class of their own in Inv/Ext.  The harness checks exactly this on interleaved readers
-   (oracle class reader_not_independent). *)
+(* It holds on the repaired configuration (every append growth policy, either map-copy behaviour).
+   Proof (coq/Proofs/HeapReaders.v): every call other than Read/Seek on a handed-out reader has a store
+   footprint that contains no store of a reader value into an existing cell (prim_nrw); every
+   handed-out reader is a bytes.Reader or a streamCursor, whose Read/Seek store to their own cell only
+   (RInv, preserved by every Legal call: rinv_step); the ownership invariant says the cell still holds a
+   reader afterwards; a cell that holds a reader before and after such a call was not stored to. *)
+Theorem C11_reader_independent : forall cf, cf_stream_shared cf = false -> C11_readers_full cf.
+Proof. exact reader_independent. Qed.
+Print Assumptions C11_reader_independent.
+
+(* The same with the ghost write counter: the cell was not even stored to. *)
+Theorem C11_reader_untouched : forall cf, cf_stream_shared cf = false -> forall hs1 hs2,
+  legalh cf pinit (hs1 ++ hs2) = true ->
+  forall x, known_b (kn (runh cf pinit hs1)) (HReader x) = true ->
+  forallb (fun p => negb (touches x p)) hs2 = true ->
+  hgetv (hp (runh cf pinit (hs1 ++ hs2))) x = hgetv (hp (runh cf pinit hs1)) x.
+Proof. exact reader_untouched. Qed.
+Print Assumptions C11_reader_untouched.
+
+(* One call: in any state that satisfies the ownership invariant and in which every reader the client
+   holds is a leaf reader (both hold along every Legal history: C11_ownership_invariant,
+   C11_readers_are_leaves), a Legal call that is not a Read/Seek on x has no store to x in its access log. *)
+Theorem C11_reader_step_footprint : forall cf tg ps p x, cf_stream_shared cf = false ->
+  SInv tg ps -> RInv ps -> legal ps p = true ->
+  known_b (kn ps) (HReader x) = true -> touches x p = false ->
+  hgetv (hp (fst (pstep cf ps p))) x = hgetv (hp ps) x /\ ~ In x (stores (call_log cf ps p)).
+Proof. exact reader_untouched_step. Qed.
+Print Assumptions C11_reader_step_footprint.
+
+Theorem C11_readers_are_leaves : forall cf, cf_stream_shared cf = false -> forall hs tg ps,
+  SInv tg ps -> RInv ps -> legalh cf ps hs = true ->
+  exists tg', SInv tg' (runh cf ps hs) /\ RInv (runh cf ps hs).
+Proof. exact runh_rinv. Qed.
+Print Assumptions C11_readers_are_leaves.
+
+(* Hence the oracle of the harness: the bytes a cursor yields next are content[off:] for the offset
+   its OWN reads and seeks left — nothing done in between by anyone else enters. *)
+Theorem C11_reader_next_read : forall cf, cf_stream_shared cf = false -> forall hs1 hs2,
+  legalh cf pinit (hs1 ++ hs2) = true ->
+  forall x src off, known_b (kn (runh cf pinit hs1)) (HReader x) = true ->
+  hget (hp (runh cf pinit hs1)) x = Some (CRdr (RdCursor src off)) ->
+  forallb (fun p => negb (touches x p)) hs2 = true ->
+  forall k c, source_content (runh cf pinit hs1) src = Done c ->
+    snd (pstep cf (runh cf pinit (hs1 ++ hs2)) (PReaderRead (HReader x) k))
+      = RDone (PAcc (XBytes (take_k k (skipn off c)) None)).
+Proof. exact reader_next_read. Qed.
+Print Assumptions C11_reader_next_read.
+
+(* What holds on EVERY configuration (on the pinned one only for cursors, which it never hands out):
+   along a Legal history a cursor stays a cursor over the same source, the content that source
+   denotes does not change, and a read yields exactly content[offset:] of the cursor's own offset. *)
 Theorem C11_reader_independent_partial : forall cf hs1 hs2,
   legalh cf pinit (hs1 ++ hs2) = true ->
   forall x src o1,
@@ -136,6 +175,30 @@ Example C11_readers_independent_repaired :
     = RDone (PAcc (XBytes [100; 101; 102; 103; 104]%N None)).
 Proof. vm_compute. repeat split. Qed.
 
+(* the hypotheses of C11_reader_independent are satisfiable by two interleaved readers: reader
+   A = (0,2) has read 3 bytes; then a second reader B = (0,3) of the same node is handed out, reads,
+   the node is read through AsBytes and through a subset match, B seeks to the end and reads again
+   — A's cell (content and write counter) is what it was, B has moved, and A goes on at "d" *)
+Definition w_two_1 : list prim :=
+  [PNewSlice [97; 98; 99; 100; 101; 102; 103; 104]%N; PNewStreamNode (HSlice w_slice8);
+   PLargeBytes (HNode (RStream (0, 1))); PReaderRead (HReader (0, 2)) (Some 3)].
+Definition w_two_2 : list prim :=
+  [PLargeBytes (HNode (RStream (0, 1))); PReaderRead (HReader (0, 3)) (Some 2);
+   PRead (HNode (RStream (0, 1))) ABytes; PMatchSubset (HNode (RStream (0, 1))) 1 5;
+   PRead (HNode (RStream (0, 4))) ALarge;
+   PReaderSeek (HReader (0, 3)) 0 SeekEnd; PReaderRead (HReader (0, 3)) None].
+
+Example C11_two_interleaved_readers :
+  legalh cfg_repaired pinit (w_two_1 ++ w_two_2) = true /\
+  known_b (kn (runh cfg_repaired pinit w_two_1)) (HReader (0, 2)) = true /\
+  forallb (fun p => negb (touches (0, 2) p)) w_two_2 = true /\
+  hgetv (hp (runh cfg_repaired pinit w_two_1)) (0, 2) = Some (CRdr (RdCursor (0, 1) 3), 1) /\
+  hgetv (hp (runh cfg_repaired pinit (w_two_1 ++ w_two_2))) (0, 2) = Some (CRdr (RdCursor (0, 1) 3), 1) /\
+  hget (hp (runh cfg_repaired pinit (w_two_1 ++ w_two_2))) (0, 3) = Some (CRdr (RdCursor (0, 1) 8)) /\
+  snd (pstep cfg_repaired (runh cfg_repaired pinit (w_two_1 ++ w_two_2)) (PReaderRead (HReader (0, 2)) (Some 2)))
+    = RDone (PAcc (XBytes [100; 101]%N None)).
+Proof. vm_compute. repeat split. Qed.
+
 (* pinned configuration: AsLargeBytes hands out the node's one reader every time, so the "second"
    reader's seek to the end leaves nothing for the first *)
 Definition w_readers_pinned : list prim :=
@@ -149,6 +212,18 @@ Theorem C11_reader_independent_refuted_pinned :
     = RDone (PAcc (XBytes [] None)).
 Proof. vm_compute. split; reflexivity. Qed.
 Print Assumptions C11_reader_independent_refuted_pinned.
+
+(* … and the full reader statement fails there: an AsBytes read of the node (not a call on the
+   reader) moves the reader AsLargeBytes handed out, because it IS the node's one reader *)
+Theorem C11_readers_full_refuted_pinned : ~ C11_readers_full cfg_pinned.
+Proof.
+  intros F.
+  specialize (F [PNewSlice [97; 98; 99; 100; 101; 102; 103; 104]%N; PNewStreamNode (HSlice w_slice8);
+                 PLargeBytes (HNode (RStream (0, 1)))]
+                [PRead (HNode (RStream (0, 1))) ABytes] eq_refl (0, 1) eq_refl eq_refl).
+  vm_compute in F. discriminate F.
+Qed.
+Print Assumptions C11_readers_full_refuted_pinned.
 
 (* ---- the pinned tree violates the full statement: streamBytes ---- *)
 
